@@ -59,6 +59,19 @@ func init() {
 			}
 			return false
 		})
+		// idle timeout as the close reason (each such edge costs a real ReadTimeout)
+		imc := modelCheck("MC_Idle", "MC_Idle.cfg", 8)
+		mc.Distinct += imc.Distinct
+		mc.Generated += imc.Generated
+		ist := tourSome(run, dumpEdges("MC_Idle", "Dump_Idle.cfg"), func(e *sessrep.Edge) bool {
+			if e.Lbl.Cmd.C != "IDLE" {
+				return false
+			}
+			return tier == "thorough" || e.ID%4 == 1 // quick: a quarter of them
+		})
+		st.Covered += ist.Covered
+		st.Edges += ist.Edges
+		st.Convs += ist.Convs
 		// cut sweep, one server at a time, with a goroutine census after each conversation set
 		per, maxLen := 2, 10
 		if tier == "thorough" {
